@@ -94,7 +94,29 @@ def bounds(tier):
                 "layout": "the surrounding fields of the four positions; setdefault / merge_fields assign to an absent field, the "
                           "field that follows is added afterwards",
                 "dump_routes": list(DUMP_ROUTES), "readers": ["%s (%s)" % (rn, st) for rn, st, _f in route_readers()],
-                "reader_sources": list(READER_SOURCES)}}
+                "reader_sources": list(READER_SOURCES)},
+            "beyond_the_small_scope": {
+                "count_ladder_continuation_lines": {
+                    "n": "every n in 1..40 and %s" % LADDER_BIG,
+                    "arrangements": "plain; indentation alternating blank / tab; one special line as the first / middle / last "
+                                    "of the n: %r (separator, line)" % (LINE_SPECIALS,),
+                    "configurations": "n <= 40: the four positions with the one-letter key and the middle position with "
+                                      "Key-2; larger n: middle position, one-letter key", "sources": list(ALL_SOURCES)},
+                "count_ladder_fields_per_paragraph": {
+                    "n": "every n in 1..40 and %s other fields (values alternately single-line and multi-line)" % LADDER_FIELDS_BIG,
+                    "field_under_test": "first / in the middle / last", "values": FIELD_VALUES,
+                    "dumps_and_readers": "n <= 40 and n = 64: dump(), str, bytes, dump(fd) binary, dump(fd, text_mode=True) "
+                                         "and every reader of the other-routes pass; larger n: dump() re-read from 4 sources",
+                    "dropped": "n = 5000 (a case takes more than a second)"},
+                "size_ladder": {
+                    "L": SIZES[tier], "not_in_quick": [L for L in SIZES["thorough"] if L not in SIZES[tier]],
+                    "shapes": "the value is exactly L characters: one long first line, or 'x' + one long continuation line",
+                    "content": "plain filler (one letter; words of 7 letters and a blank, a blank just before every multiple "
+                               "of 8) and one token of %s" % SIZE_TOKEN_NAMES,
+                    "places": "behind the start, at the very end, and for every block size of %s inside the value: token "
+                              "starting at b-1, b, b+1, ending at b, and starting at b in the dump" % SIZE_BLOCKS,
+                    "configurations": "L <= 4097: as for n <= 40; larger: middle position, one-letter key; L >= 65535: re-read "
+                                      "from str and bytes only"}}}
 
 
 def assumptions():
@@ -111,6 +133,9 @@ def assumptions():
             "constructor has no paragraph to leave unchanged, and on the unchanged library it reports a refused value with "
             "a TypeError raised while it formats its own ValueError message (Deb822({'K': 'a\\n'}) -> TypeError: "
             "'dict_items' object is not subscriptable): counted as a refusal, the exception class is not demanded there",
+            "ladders: values and paragraphs are generated from the description stored in the case; the oracle is the one "
+            "of the main pass (a lone CR is a line boundary for the reader; over-rejection is no violation, so a value with "
+            "a CR followed by unindented text may be refused or accepted as long as the re-read keeps the field names)",
             "other readers: Packages / Sources.iter_paragraphs default to the setting under which whitespace-only lines do "
             "not end a paragraph; strict={} and strict={...: True} are the default setting spelled out"]
 
@@ -177,6 +202,16 @@ def must_reject(v):
 def build(position, key):
     from debian.deb822 import Deb822
     p = Deb822()
+    if isinstance(position, (list, tuple)):
+        # ["fields", n, at]: n other fields F1..Fn (single-line and multi-line values alternating), the field under
+        # test in front of the at-th of them (at = n: behind all)
+        _f, n, at = position
+        for i in range(n + 1):
+            if i == at:
+                p[key] = "0"
+            if i < n:
+                p["F%d" % (i + 1)] = "1" if i % 2 == 0 else "m\n c%d" % i
+        return p
     if position in ("middle", "last"):
         p["X"] = "1"
     if position != "only":
@@ -321,13 +356,16 @@ def classify(ps, got, want):
     return "reordered"
 
 
-def execute(position, key, v, part=None, sources=("str", "stringio"), route="setitem", clsname="Deb822", readers=False):
+def execute(position, key, v, part=None, sources=("str", "stringio"), route="setitem", clsname="Deb822", readers=False,
+            family=None):
     """-> list of (sig, expected, observed).  readers: the default assignment followed by the other ways of dumping and
     the other readers"""
     from debian.deb822 import Deb822
     bad = []
     default_route = route == "setitem" and clsname == "Deb822"
     tag = "readers/" if readers else "" if default_route else "route/%s%s/" % (route, "" if clsname == "Deb822" else "-" + clsname)
+    if family:
+        tag = family + "/" + tag
     p = build(position, key) if default_route else build_route(position, key, route, clsname)
     before = (list(p.items()), p.dump()) if p is not None else None
     mr = must_reject(v)
@@ -357,7 +395,7 @@ def execute(position, key, v, part=None, sources=("str", "stringio"), route="set
             bad.append((tag + "reject/paragraph-changed", before, after))
         if part is not None:
             part.evaluations += ev
-            part.outcomes[("readers:" if readers else "route:" if tag else "") + "rejected:" + _msg_class(e)] += 1
+            part.outcomes[(family + ":" if family else "readers:" if readers else "route:" if tag else "") + "rejected:" + _msg_class(e)] += 1
         return bad
     except Exception as e:
         bad.append((tag + "setitem/raises/%s" % type(e).__name__, "accepted or ValueError", "%s: %s" % (type(e).__name__, e)))
@@ -446,11 +484,12 @@ def execute(position, key, v, part=None, sources=("str", "stringio"), route="set
                                 "%r from dump %r" % ([list(q.items()) for q in ps], text)))
     if part is not None:
         part.evaluations += ev
-        part.outcomes[("readers:" if readers else "route:" if tag else "") + "accepted:lines=%d:blankcont=%s:readback=%s" % (
-            len(rl), "y" if blankcont else "n", readback)] += 1
+        part.outcomes[(family + ":" if family else "readers:" if readers else "route:" if tag else "") + "accepted:lines=%s:blankcont=%s:readback=%s" % (
+            len(rl) if not family or len(rl) < 4 else "4+", "y" if blankcont else "n", readback)] += 1
         if "\n" in v or "\r" in v:
             part.nontrivial += 1
-        part.extra["accepted (other readers)" if readers else "accepted (other routes)" if tag else "accepted" if len(sources) == 2 else
+        part.extra["accepted (%s)" % family.split("/")[0] if family else
+                   "accepted (other readers)" if readers else "accepted (other routes)" if tag else "accepted" if len(sources) == 2 else
                    "accepted (structured continuation lines)"] += 1
     return bad
 
@@ -482,6 +521,7 @@ def units(tier, seed):
     for pi in range(len(POSITIONS)):
         for ki in range(2):
             out.append(("D", 0, pi, ki))
+    out += ladder_units(tier)
     return out
 
 
@@ -496,6 +536,8 @@ def route_values(tier, seed):
 
 def unit_cost(u, tier):
     L, pre, pi, ki = u
+    if L == "X":
+        return ladder_cost(pre, pi)
     if L == "S":
         return 2400
     if L == "R":
@@ -509,6 +551,8 @@ def run_unit(u, tier, seed):
     part = core.Part()
     L, pre, pi, ki = u
     al = alphabet(seed)
+    if L == "X":
+        return run_ladder(part, pre, pi, tier, seed)
     position, key = POSITIONS[pi], keys(seed)[ki]
     if L == "S":
         part.max_depth = 6
@@ -559,12 +603,157 @@ def run_unit(u, tier, seed):
     return part
 
 
+# ------------------------------------------------------------------------------------------------ beyond the small scope
+# Count ladders and size ladders.  A value is generated from a compact description (the case stores the description,
+# never the value) and judged by the oracle of the main pass.
+#   lines   x + n continuation lines (n = every count of LADDER_SMALL and LADDER_BIG), plain / alternating indentation /
+#           one special line (legal or not) as the first, the middle or the last of them
+#   fields  a paragraph with n other fields, the field under test first / in the middle / last, a few legal and
+#           illegal values; n <= 40: all ways of dumping and all readers (dump(), str, bytes, dump(fd) binary and text)
+#   size    a value of exactly L characters (a long first line, or a long continuation line), plain filler or one token
+#           (lone CR, blank, 'W: t' behind CR / LF / blank, an empty line, a two-byte character) placed at the block
+#           boundaries (multiples of 16 KiB / 64 KiB ... in the value and in the dump) and at the very end
+LADDER_SMALL = list(range(1, 41))
+LADDER_BIG = [63, 64, 65, 100, 127, 128, 129, 255, 256, 257, 999, 1000, 1001, 1025, 2500, 2501, 5000]
+LADDER_FIELDS_BIG = [63, 64, 65, 100, 127, 128, 129, 255, 256, 257, 999, 1000, 1001, 1025, 2500, 2501]
+LINE_SPECIALS = [("\n", " W: t"), ("\n", "\tW:"), ("\n", " #c"), ("\n", " ."), ("\n", " "), ("\r", " W: t"), ("\r\n", " W: t"),
+                 ("\n", "W: t"), ("\n", ""), ("\r", "W: t"), ("\n", "#c")]
+FIELD_VALUES = ["v", "x\n W: t\n\ty", "x\n \n y", "\n y", "x\nW: t", "x\n\n y", "x\n", "x\rW: t"]
+SIZES = {"quick": [997, 998, 999, 1000, 4095, 4096, 4097, 16383, 16384, 16385, 65535, 65536, 65537, 131071, 131072, 131073],
+         "thorough": [997, 998, 999, 1000, 4095, 4096, 4097, 16383, 16384, 16385, 65535, 65536, 65537, 131071, 131072, 131073,
+                      262143, 262144, 262145]}
+SIZE_BLOCKS = [4096, 16384, 65536, 131072, 262144]
+SIZE_TOKENS = ["\r", "\rW: t", "\r W: t", "\r\n W: t", " ", " W: t", "\nW: t", "\n W: t", "\n\n ", "\n \n ", "é"]
+SIZE_TOKEN_NAMES = ["CR", "CR+field", "CR+blank+field", "CRLF+blank+field", "blank", "blank+field", "LF+field", "LF+blank+field",
+                    "LF+LF", "LF+blank+LF", "two-byte"]
+SIZE_SHAPES = {"first": "", "cont": "x\n "}
+DUMP_OFFSET = 8          # len("X: 1\nK: "): where the value starts in the dump of the 'middle' layout, one-letter key
+
+
+def gen_value(desc, seed):
+    """the value a description stands for"""
+    a = alphabet(seed)[0]
+    kind = desc["ladder"]
+    if kind == "lines":
+        n, arr = desc["n"], desc["arr"]
+        lines = [("\n", ("\t" if arr == "alt" and i % 2 else " ") + "%s%d" % (a, i)) for i in range(n)]
+        if isinstance(arr, (list, tuple)):
+            _s, si, where = arr
+            lines[{"first": 0, "middle": n // 2, "last": n - 1}[where]] = LINE_SPECIALS[si]
+        return "x" + "".join(sep + l for sep, l in lines)
+    if kind == "fields":
+        return FIELD_VALUES[desc["value"]]
+    if kind == "size":
+        L, pre = desc["L"], SIZE_SHAPES[desc["shape"]]
+        if desc["filler"] == "words":
+            body = ((a * 7 + " ") * (L // 8 + 1))[:L - len(pre) - 1] + a      # (never ends in a blank)
+        else:
+            body = a * (L - len(pre))
+        v = pre + body
+        if desc["token"] is not None:
+            t, p = SIZE_TOKENS[desc["token"]], desc["at"]
+            v = v[:p] + t + v[p + len(t):]
+        assert len(v) == L, (desc, len(v))
+        return v
+    raise AssertionError(desc)
+
+
+def size_places(L, shape, token):
+    """offsets (in the value) where the token is put: behind the shape's prefix, at the very end, and around every block
+    boundary inside: token starting at b-1, b, b+1, token ending at b, and token starting at b in the dump"""
+    t, pre = SIZE_TOKENS[token], len(SIZE_SHAPES[shape])
+    out = [pre + 1, L - len(t)]
+    for b in SIZE_BLOCKS:
+        out += [b - 1, b, b + 1, b - len(t), b - DUMP_OFFSET]
+    seen = []
+    for p in out:
+        if pre + 1 <= p and p + len(t) <= L and p not in seen:
+            seen.append(p)
+    return seen
+
+
+def ladder_cases(fam, arg, tier):
+    """-> list of (position, key index, description, sources, readers) of one ladder unit, simplest first"""
+    out = []
+    if fam == "lines":
+        n = arg
+        arrs = ["plain", "alt"] + [["special", si, w] for si in range(len(LINE_SPECIALS))
+                                   for w in (("first",) if n == 1 else ("first", "last") if n == 2 else ("first", "middle", "last"))]
+        confs = [("middle", 0)] if n > 40 else [("only", 0), ("first", 0), ("middle", 0), ("last", 0), ("middle", 1)]
+        for arr in arrs:
+            for position, ki in confs:
+                out.append((position, ki, {"ladder": "lines", "n": n, "arr": arr}, ALL_SOURCES, False))
+    elif fam == "fields":
+        n = arg
+        ats = [0, n] if n == 1 else [0, n // 2, n]
+        for at in ats:
+            for vi in range(len(FIELD_VALUES)):
+                if n <= 40 or n == 64:
+                    out.append((["fields", n, at], 0, {"ladder": "fields", "value": vi}, READER_SOURCES, True))
+                else:
+                    out.append((["fields", n, at], 0, {"ladder": "fields", "value": vi}, ALL_SOURCES, False))
+    else:
+        L = arg
+        srcs = ALL_SOURCES if L < 65535 else ("str", "bytes")
+        confs = [("middle", 0)] if L > 4097 else [("only", 0), ("first", 0), ("middle", 0), ("last", 0), ("middle", 1)]
+        for shape in ("first", "cont"):
+            for filler in ("solid", "words"):
+                for position, ki in confs:
+                    out.append((position, ki, {"ladder": "size", "L": L, "shape": shape, "filler": filler, "token": None, "at": None},
+                                srcs, False))
+            for ti in range(len(SIZE_TOKENS)):
+                for p in size_places(L, shape, ti):
+                    for position, ki in confs:
+                        out.append((position, ki, {"ladder": "size", "L": L, "shape": shape, "filler": "solid", "token": ti, "at": p},
+                                    srcs, False))
+    return out
+
+
+def ladder_units(tier):
+    out = [("X", "lines", n, 0) for n in LADDER_SMALL + LADDER_BIG]
+    out += [("X", "fields", n, 0) for n in LADDER_SMALL + LADDER_FIELDS_BIG]
+    out += [("X", "size", L, 0) for L in SIZES[tier]]
+    return out
+
+
+def ladder_cost(fam, arg):
+    return {"lines": 40, "fields": 400, "size": 3}[fam] * (arg + 40)
+
+
+def run_ladder(part, fam, arg, tier, seed):
+    ks = keys(seed)
+    case = None
+    for position, ki, desc, sources, readers in ladder_cases(fam, arg, tier):
+        v = gen_value(desc, seed)
+        family = "ladder/" + fam if fam != "size" else "size/%s/%s" % (
+            desc["shape"], "filler" if desc["token"] is None else SIZE_TOKEN_NAMES[desc["token"]])
+        part.states += 1
+        part.transitions += 1
+        part.traces += 1
+        part.max_depth = max(part.max_depth, len(v))
+        case = {"position": position, "key": ks[ki], "gen": desc, "seed": seed, "sources": list(sources), "readers": readers,
+                "family": family}
+        for sig, exp, obs in execute(position, ks[ki], v, part, sources, readers=readers, family=family):
+            part.violation(sig, case, exp, obs, rank=len(v))
+        part.extra["%s ladder cases" % fam] += 1
+    if case is not None:
+        part.sample(case)
+    return part
+
+
 def replay(case):
+    if "gen" in case:
+        case = dict(case, value=gen_value(case["gen"], case["seed"]))
     return execute(case["position"], case["key"], case["value"], None, tuple(case.get("sources", ("str", "stringio"))),
-                   case.get("route", "setitem"), case.get("class", "Deb822"), bool(case.get("readers")))
+                   case.get("route", "setitem"), case.get("class", "Deb822"), bool(case.get("readers")), case.get("family"))
 
 
 def repro_py(case):
+    if "gen" in case:
+        return ("# run from /verif with the repository's lib directory first on sys.path\n"
+                "from mc.props import c08\ncase = %r\n"
+                "print(len(c08.gen_value(case['gen'], case['seed'])))   # the value is generated from its description\n"
+                "bad = c08.replay(case)\nassert not bad, [b[0] for b in bad]\n" % (case,))
     return ("import io\nfrom debian.deb822 import Deb822\n"
             "position, key, v, more = %r, %r, %r, %r\n"
             "p = Deb822()\n"
